@@ -121,7 +121,7 @@ def run(ctx) -> None:
             if m.cls.name == "HyperNode" and name == "map_inputs_to_params":
                 # abstract default: identity for nodes without renames is decided by the concrete classes
                 pass
-            clo = db.closure([m], property_reads=False)
+            clo = db.closure([m], property_reads=True)
             ok = target in clo
             if not ok and m.cls.name == "HyperNode":
                 body = [s for s in m.body if not (isinstance(s, ast.Expr) and isinstance(s.value, ast.Constant))]
@@ -190,36 +190,8 @@ def run(ctx) -> None:
     rep.add("C06.R5", f"{wr.qname}:one-batch", ok, wr.loc(), "batch id obtained once per call, outside the per-entry loop, and stamped on every entry" if ok else "batch id is obtained per entry (or not stamped): renames of one call would be treated as sequential and a swap would chain")
 
     # ---- R6 ---------------------------------------------------------------------
-    sites = []
-    for q, w, seeds, kseeds, rv in QUALIFIER_SITES:
-        f = db.maybe_func(q)
-        if f is None:
-            raise AnalysisError(f"name-space site vanished: {q}")
-        sites.append((f, w, seeds, kseeds, rv))
-    for m in gn.methods.values():
-        seeds = {p: q for p, q in GN_PARAM_SEEDS.items() if p in m.param_names}
-        sites.append((m, "self", seeds, GN_KEY_SEEDS.get(m.name, {}), set()))
-    for f, w, seeds, kseeds, rv in sites:
-        ns = NameSpaces(db, f, w, seeds, rv)
-        ns.keyq.update({k: v for k, v in kseeds.items() if k not in ns.keyq or ns.keyq[k] is None})
-        # re-run with key seeds in place
-        ns2 = _with_key_seeds(db, f, w, seeds, kseeds, rv)
-        if ns2.mismatches:
-            mm = ns2.mismatches[0]
-            rep.bad("C06.R6", f"{f.qname}", f"{f.module.rel}:{mm.lineno}", f"'{mm.what}': {mm.detail} — correct only while no rename exists on this wrapper")
-        else:
-            rep.ok("C06.R6", f"{f.qname}", f.loc(), "no wrapper-space name meets inner-space keys (or vice versa) without a translator")
-    # boundary: what the executors hand back must be in the wrapper's space
-    for q in ("runners.sync.executors.graph_node.SyncGraphNodeExecutor.__call__", "runners.async_.executors.graph_node.AsyncGraphNodeExecutor.__call__", "runners.async_.executors.graph_node.AsyncGraphNodeExecutor._handle_nested_result"):
-        f = db.func(q)
-        ns = _with_key_seeds(db, f, "node", {}, {"inputs": OUTER}, {"result"})
-        for r in [n for n in walk_local(f.node) if isinstance(n, ast.Return) and n.value is not None]:
-            v = r.value
-            if isinstance(v, ast.Call) and isinstance(v.func, ast.Attribute) and v.func.attr == "_handle_nested_result":
-                rep.ok("C06.R3", f"{f.qname}:returns@{_ri(f, r)}", f"{f.module.rel}:{r.lineno}", "result handed to the converter")
-                continue
-            qv = ns.q(v)
-            rep.add("C06.R3", f"{f.qname}:returns@{_ri(f, r)}", qv == OUTER, f"{f.module.rel}:{r.lineno}", "returns outputs under the wrapper's current names" if qv == OUTER else f"returns '{src(v)[:50]}' whose keys are not translated back to the wrapper's current output names")
+    check_qualifiers(ctx, "C06.R6")
+    check_executor_returns(ctx, "C06.R3")
 
     # ---- R7 ---------------------------------------------------------------------
     n_inv = 0
@@ -246,6 +218,51 @@ def run(ctx) -> None:
                 rep.add("C06.R7", f"{f.qname}", filt, f"{f.module.rel}:{n.lineno}", "inversion is restricted to the node's current names" if filt else "inverts the reverse rename map including abandoned intermediate names: after r->x, x->z, z->x the stale entry wins and values are published under a name the node no longer has")
     if n_inv == 0:
         rep.ok("C06.R7", "no-inversion-sites", "src/hypergraph/nodes:1", "no function inverts a reverse rename map (positive example checked in the self-test)")
+
+
+
+def check_qualifiers(ctx, rule: str, only: tuple[str, ...] | None = None) -> None:
+    """Name-space discipline (C06.R6); ``only`` restricts to sites whose qualified name contains one of the fragments."""
+    db, rep = ctx.db, ctx.rep
+    gn = db.cls("nodes.graph_node.GraphNode")
+    # ---- R6 ---------------------------------------------------------------------
+    sites = []
+    for q, w, seeds, kseeds, rv in QUALIFIER_SITES:
+        f = db.maybe_func(q)
+        if f is None:
+            raise AnalysisError(f"name-space site vanished: {q}")
+        sites.append((f, w, seeds, kseeds, rv))
+    for m in gn.methods.values():
+        seeds = {p: q for p, q in GN_PARAM_SEEDS.items() if p in m.param_names}
+        sites.append((m, "self", seeds, GN_KEY_SEEDS.get(m.name, {}), set()))
+    if only is not None:
+        sites = [s_ for s_ in sites if any(frag in s_[0].qname for frag in only)]
+    for f, w, seeds, kseeds, rv in sites:
+        ns = NameSpaces(db, f, w, seeds, rv)
+        ns.keyq.update({k: v for k, v in kseeds.items() if k not in ns.keyq or ns.keyq[k] is None})
+        # re-run with key seeds in place
+        ns2 = _with_key_seeds(db, f, w, seeds, kseeds, rv)
+        if ns2.mismatches:
+            mm = ns2.mismatches[0]
+            rep.bad(rule, f"{f.qname}", f"{f.module.rel}:{mm.lineno}", f"'{mm.what}': {mm.detail} — correct only while no rename exists on this wrapper")
+        else:
+            rep.ok(rule, f"{f.qname}", f.loc(), "no wrapper-space name meets inner-space keys (or vice versa) without a translator")
+
+
+def check_executor_returns(ctx, rule: str) -> None:
+    db, rep = ctx.db, ctx.rep
+    # boundary: what the executors hand back must be in the wrapper's space
+    for q in ("runners.sync.executors.graph_node.SyncGraphNodeExecutor.__call__", "runners.async_.executors.graph_node.AsyncGraphNodeExecutor.__call__", "runners.async_.executors.graph_node.AsyncGraphNodeExecutor._handle_nested_result"):
+        f = db.func(q)
+        ns = _with_key_seeds(db, f, "node", {}, {"inputs": OUTER}, {"result"})
+        for r in [n for n in walk_local(f.node) if isinstance(n, ast.Return) and n.value is not None]:
+            v = r.value
+            if isinstance(v, ast.Call) and isinstance(v.func, ast.Attribute) and v.func.attr == "_handle_nested_result":
+                rep.ok(rule, f"{f.qname}:returns@{_ri(f, r)}", f"{f.module.rel}:{r.lineno}", "result handed to the converter")
+                continue
+            qv = ns.q(v)
+            rep.add(rule, f"{f.qname}:returns@{_ri(f, r)}", qv == OUTER, f"{f.module.rel}:{r.lineno}", "returns outputs under the wrapper's current names" if qv == OUTER else f"returns '{src(v)[:50]}' whose keys are not translated back to the wrapper's current output names")
+
 
 
 def _with_key_seeds(db, f, w, seeds, kseeds, rv) -> NameSpaces:
